@@ -51,7 +51,7 @@ def jsonable(x):
     if isinstance(x, (list, tuple, set, frozenset)):
         return [jsonable(v) for v in x]
     if isinstance(x, np.ndarray):
-        return [jsonable(v) for v in x.tolist()]
+        return jsonable(x.tolist())
     if isinstance(x, (np.floating,)):
         return jsonable(float(x))
     if isinstance(x, (np.integer,)):
